@@ -173,4 +173,59 @@ def replay_encoder(job):
     return check_encode(job["kind"], attrs)
 
 
+def search_encoder(job):
+    """the record written for a cell of this kind: published layout for a spread of optional attributes, and the payload word at
+    offset 12 carries the cell's value exactly (date-times with fractional seconds, time zones; fractional durations)"""
+    import itertools
+    from datetime import datetime, timedelta, timezone
+    kind = job["kind"]
+    names = [a for a in ATTR_BIT if a != "_string_id"]
+    for n_set in (0, 1, len(names)):
+        for combo in itertools.islice(itertools.combinations(names, n_set), 12):
+            attrs = {a: (7 + i if a in combo else None) for i, a in enumerate(names)}
+            r = check_encode(kind, attrs)
+            if r["violated"]:
+                r["job"] = {"custom": "replay_encoder", "kind": kind, "inputs": {"in" + a: v for a, v in attrs.items()}}
+                return r
+    epoch = datetime(2001, 1, 1)
+    values = {"date": [datetime(2022, 5, 30, 8, 22, 11, 500000), datetime(2001, 1, 1, 0, 0, 0, 1), datetime(1999, 12, 31, 23, 59, 59, 999999),
+                       datetime(2020, 2, 29, 12, 0, 0), datetime(1970, 1, 1), datetime(2024, 7, 1, 1, 2, 3, 250000, tzinfo=timezone(timedelta(hours=5, minutes=30)))],
+              "duration": [timedelta(seconds=90.25), timedelta(microseconds=1), timedelta(days=3, seconds=7, microseconds=500000), timedelta(seconds=-1.5), timedelta(0)],
+              "bool": [True, False],
+              "number": [1.5, 0.1 + 0.2, 1 / 3, 123456789.12345679, 1234567890123456.0, 1.25e-7, -2.5e10, 0.0, 9007199254740993.0],
+              "currency": [2.5, 0.30000000000000004, 19.99, -1234.5678901234567]}.get(kind, [])
+    for v in values:
+        if kind in ("number", "currency"):
+            from fractions import Fraction
+            cell = make_cell(kind, {})
+            cell._value = v
+            try:
+                rec = cell._to_buffer()
+            except Exception as e:  # noqa: BLE001
+                return {"violated": True, "detail": f"_to_buffer of a {kind} cell holding {v!r} raised {type(e).__name__}: {e}"}
+            b = rec[12:28]
+            exp = (((b[15] & 0x7F) << 7) | (b[14] >> 1)) - 0x1820
+            m = int.from_bytes(bytes(b[:14]), "little") + ((b[14] & 1) << 112)
+            got = float(Fraction(m) * Fraction(10) ** exp * (-1 if b[15] & 0x80 else 1))
+            if got != v:
+                return {"violated": True, "detail": f"the record of a {kind} cell holding {v!r} carries the decimal {m}e{exp} = {got!r} in its value word"}
+            continue
+        cell = make_cell(kind, {})
+        cell._value = v
+        try:
+            rec = cell._to_buffer()
+        except Exception as e:  # noqa: BLE001
+            return {"violated": True, "detail": f"_to_buffer of a {kind} cell holding {v!r} raised {type(e).__name__}: {e}"}
+        got = struct.unpack("<d", rec[12:20])[0]
+        if kind == "date":
+            want = (v - (epoch if v.tzinfo is None else epoch.astimezone(v.tzinfo))).total_seconds()
+        elif kind == "duration":
+            want = v.total_seconds()
+        else:
+            want = 1.0 if v else 0.0
+        if got != want:
+            return {"violated": True, "detail": f"the record of a {kind} cell holding {v!r} carries {got!r} in its value word; the value is {want!r}"}
+    return {"violated": False}
+
+
 NATIVE = {}
